@@ -139,6 +139,32 @@ pub fn check_state(subj: &LevelSubject, rcd: &Recorder, hist: &[u16], op: &Op, e
         t_o.push(t);
     }
 
+    // what the known-deviation model (the implementation's own queue discipline: KF1 + KF2) predicts for
+    // the original: a difference between original and restored is attributed to a known finding only
+    // if the original behaves exactly as those mechanisms say
+    let model_t: Option<Vec<Vec<ImplRes>>> = e
+        .model_after
+        .first()
+        .and_then(|m| m.as_ref())
+        .map(|m0| {
+            conts
+                .iter()
+                .map(|c| {
+                    let mut m = m0.clone();
+                    let mut t: Vec<ImplRes> = c
+                        .iter()
+                        .map(|x| match x {
+                            Op::Match(q) => ImplRes::Matched(m.do_match(*q)),
+                            Op::Upd(k, id) => ImplRes::Updated(m.update(&cfg.update_of(*k, *id))),
+                            _ => ImplRes::Added,
+                        })
+                        .collect();
+                    t.push(ImplRes::Matched(m.do_match(DRAIN_QTY)));
+                    t
+                })
+                .collect()
+        });
+
     // the snapshot source
     let src = subj.exec(rcd, hist, op, 0, false, true);
     let Some(level) = src.level_for_rebuild.as_ref() else {
@@ -188,7 +214,17 @@ pub fn check_state(subj: &LevelSubject, rcd: &Recorder, hist: &[u16], op: &Op, e
                     let msg = format!(
                         "{path:?}: state {} queue order {:?} (tickets {:?}), snapshot listing {lids:?}; continuation [{cname}; drain]: original [{}] / restored [{}]",
                         e.post.describe(), effective, e.tickets, describe(&t_o[ci]), describe(&t_r));
-                    if clean && ts_consistent {
+                    let explained = model_t
+                        .as_ref()
+                        .map(|mt| mt[ci] == t_o[ci])
+                        .unwrap_or(false);
+                    if !explained {
+                        if out.violations.len() < 5 {
+                            out.violations.push(format!(
+                                "C11 original and restored level trade differently and the original does not behave as the known queue mechanisms (KF1/KF2) predict: {msg}; predicted for the original [{}]",
+                                model_t.as_ref().map(|mt| describe(&mt[ci])).unwrap_or_default()));
+                        }
+                    } else if clean && ts_consistent {
                         if out.violations.len() < 5 {
                             out.violations.push(format!(
                                 "C11 restored level trades differently although the original's queue order equals the strict timestamp order: {msg}"));
